@@ -180,6 +180,7 @@ static Val run_stream(const Val &c)
     QList<QByteArray> chunks;
     for (auto &v : c.at(0).l) chunks.append(v.asBytes());
     bool deferred = c.at(1).asInt() != 0, explicitHeaders = c.at(2).asInt() != 0;
+    int burst = c.size() > 3 ? int(c.at(3).asInt()) : 1;
     QTcpServer srv;
     if (!srv.listen(QHostAddress::LocalHost, 0)) throw std::runtime_error("nolisten");
     QTcpSocket client;
@@ -212,6 +213,7 @@ static Val run_stream(const Val &c)
         s->setHeader("Content-Length", QByteArray::number(total));
         if (explicitHeaders) s->writeHeaders();
         writeNext();
+        for (int b = 1; b < burst; ++b) writeNext();                    // a burst of chunks written back to back, topped up from the notifications
         if (chunks.size() > 1 && chunks[0].isEmpty()) writeNext();      // an empty first chunk reports nothing: keep going
     });
     client.write("GET /s HTTP/1.1\r\n\r\n"); client.flush();
@@ -222,7 +224,10 @@ static Val run_stream(const Val &c)
     if (guard) delete s;
     QCoreApplication::sendPostedEvents(nullptr, QEvent::DeferredDelete);
     int i = got.indexOf("\r\n\r\n");
-    return Val::List({Val::Int(written), Val::Int(notified), Val::Int(overshoot), Val::Int(i >= 0 ? got.size() - i - 4 : -1), Val::Bool(!done)});
+    QByteArray expected;
+    for (int k = 0; k < next && k < chunks.size(); ++k) expected += chunks[k];
+    return Val::List({Val::Int(written), Val::Int(notified), Val::Int(overshoot), Val::Int(i >= 0 ? got.size() - i - 4 : -1), Val::Bool(!done),
+                      Val::Bool(i >= 0 && got.mid(i + 4) == expected)});        // the body arrived in the order of the write calls
 }
 
 void reg_sock() { registerFamily("stream", run_stream); registerFamily("sock", run_sock); registerFamily("sockl", run_sockl); registerFamily("socknet", run_socknet); registerFamily("socklate", run_socklate); }
